@@ -263,7 +263,8 @@ theorem owners_exact_flat_partial (env : Env) (silent : Bool) (s : Stmt) (g : LG
   obtain ⟨g', hg', hx⟩ := analyze_exact env silent s hp hs
   rw [h] at hg'
   cases hg'
-  exact hx.hasColumn u v
+  have := hx.hasColumn u v
+  simpa using this
 
 /-- every edge of the statement holder is one of: a specified pair (LINEAGE), an owner edge of a specified pair (HAS_COLUMN),
     the alias edge of a table reference (HAS_ALIAS) — there is nothing else in the graph -/
@@ -281,12 +282,14 @@ theorem edges_exact_flat_partial (env : Env) (silent : Bool) (s : Stmt) (g : LGr
     have hy := Graph.ety_of_mem g u v he
     cases ht : g.etype u v with
     | lineage => exact Or.inl ((hx.lineage u v).mp ⟨he, by rw [hy, ht]⟩)
-    | hasColumn => exact Or.inr (Or.inl ((hx.hasColumn u v).mp ⟨he, by rw [hy, ht]⟩))
+    | hasColumn =>
+      have := (hx.hasColumn u v).mp ⟨he, by rw [hy, ht]⟩
+      exact Or.inr (Or.inl (by simpa using this))
     | hasAlias => exact Or.inr (Or.inr ((hx.hasAlias u v).mp ⟨he, by rw [hy, ht]⟩))
     | rename => exact absurd (by rw [hy, ht]) (hx.noRename u v he)
   · rintro (h1 | h1 | h1)
     · exact ((hx.lineage u v).mpr h1).1
-    · exact ((hx.hasColumn u v).mpr h1).1
+    · exact ((hx.hasColumn u v).mpr (Or.inr h1)).1
     · exact ((hx.hasAlias u v).mpr h1).1
 
 /-- the written table owns every target column of a pair; a source column hangs from the owner recorded in its key (a
